@@ -33,15 +33,18 @@ def _is_literal(v):
     return False
 
 
-def propagate_constants(tree):
-    """replace loads of private literal constants by the literal (module level and class level)"""
+def propagate_constants(tree, modname=None):
+    """replace loads of private literal constants by the literal (module level and class level); a public module-level literal
+    that today's tree does not have (sa/api_reference.json) is treated like a private one"""
     consts = {}
     counts = {}
+    known_globals = set(_reference().get("%s:globals" % modname, [])) if modname else None
     for node in tree.body:
         if isinstance(node, ast.Assign) and len(node.targets) == 1 and isinstance(node.targets[0], ast.Name):
             nm = node.targets[0].id
             counts[nm] = counts.get(nm, 0) + 1
-            if nm.startswith("_") and _is_literal(node.value):
+            is_new = known_globals is not None and bool(known_globals) and nm not in known_globals and not nm.startswith("__")
+            if (nm.startswith("_") or is_new) and _is_literal(node.value):
                 consts[nm] = node.value
     for nm, c in counts.items():
         if c != 1:
@@ -981,7 +984,7 @@ def inline_local_closures(tree, modname=None):
     quals = {}
     toplevel = {q for q in reference if q.count(".") == 1}
     # a nested helper of today's tree keeps its role when the function around it is split or renamed
-    ref_nested = {q.rsplit(".", 1)[1] for q in reference if q.rsplit(".", 1)[0] in reference}
+    ref_nested = {q.rsplit(".", 1)[1] for q in reference if ":" not in q and "." in q and q.rsplit(".", 1)[0] in reference}
 
     def walk(node, prefix):
         for ch in ast.iter_child_nodes(node):
@@ -1755,7 +1758,7 @@ def propagate_aliases(tree):
     total = [0]
 
     def chain_base(e):
-        while isinstance(e, ast.Attribute):
+        while isinstance(e, ast.Attribute) or (isinstance(e, ast.Subscript) and isinstance(e.slice, ast.Constant)):
             e = e.value
         return e if isinstance(e, ast.Name) else None
 
@@ -1786,8 +1789,17 @@ def propagate_aliases(tree):
         collect(fn)
         for blk, st in [(b, x) for b in blocks for x in list(b)]:
             if not (isinstance(st, ast.Assign) and len(st.targets) == 1 and isinstance(st.targets[0], ast.Name)
-                    and isinstance(st.value, ast.Attribute)):
+                    and (isinstance(st.value, ast.Attribute) or (isinstance(st.value, ast.Subscript) and isinstance(st.value.slice, ast.Constant)
+                                                                and isinstance(st.value.value, ast.Attribute)))):
                 continue
+            if isinstance(st.value, ast.Subscript):
+                # `item = self.well["STRT"]`: the container must not be re-bound or have that slot replaced later in the function
+                ctxt = ast.unparse(st.value)
+                if any(isinstance(x, ast.Subscript) and isinstance(x.ctx, (ast.Store, ast.Del)) and ast.unparse(x) == ctxt for x in ast.walk(fn)):
+                    continue
+                if any(isinstance(c_, ast.Call) and isinstance(c_.func, ast.Attribute) and c_.func.attr in ("pop", "insert", "append", "remove", "clear",
+                       "__setitem__", "__delitem__", "set_item") and ast.unparse(c_.func.value) == ast.unparse(st.value.value) for c_ in ast.walk(fn)):
+                    continue
             if blk is not fn.body:
                 # nested binding: every load of the alias must come later in the same block (no use before / outside it),
                 # and the binding must not sit in a loop body (one binding per iteration is still one value per use)
@@ -1988,6 +2000,55 @@ def unroll_constant_loops(tree, limit=8):
     return n[0]
 
 
+def split_live_ranges(tree):
+    """a local that is re-bound several times at the top level of one block (`item = a; use(item); item = b; use(item)` - what an
+    unrolled loop leaves behind) and lives nowhere else gets one name per binding, so that each binding is a plain alias"""
+    n = 0
+    for fn in ast.walk(tree):
+        if not isinstance(fn, (ast.FunctionDef, ast.AsyncFunctionDef)):
+            continue
+        params = {a.arg for a in fn.args.args + fn.args.kwonlyargs + getattr(fn.args, "posonlyargs", [])}
+        for holder in ast.walk(fn):
+            for fld in ("body", "orelse", "finalbody"):
+                blk = getattr(holder, fld, None)
+                if not (isinstance(blk, list) and blk and isinstance(blk[0], ast.stmt)):
+                    continue
+                defs = {}
+                for i, st in enumerate(blk):
+                    if isinstance(st, ast.Assign) and len(st.targets) == 1 and isinstance(st.targets[0], ast.Name):
+                        defs.setdefault(st.targets[0].id, []).append(i)
+                for name, idxs in defs.items():
+                    if len(idxs) < 2 or name in params:
+                        continue
+                    inside = {id(x) for st in blk[idxs[0]:] for x in ast.walk(st) if isinstance(x, ast.Name) and x.id == name}
+                    every = [x for x in ast.walk(fn) if isinstance(x, ast.Name) and x.id == name]
+                    if any(id(x) not in inside for x in every):
+                        continue
+                    tops = {id(blk[i].targets[0]) for i in idxs}
+                    if any(isinstance(x.ctx, (ast.Store, ast.Del)) and id(x) not in tops for x in every):
+                        continue
+                    if any(isinstance(x, (ast.For, ast.While)) for x in ast.walk(holder) if x is not holder and any(
+                            isinstance(y, ast.Name) and y.id == name for y in ast.walk(x))) and isinstance(holder, (ast.For, ast.While)):
+                        continue
+                    if isinstance(holder, (ast.For, ast.While)):
+                        continue      # loop-carried values would need care
+                    for k, i in enumerate(idxs[1:], start=2):
+                        new = "%s__r%d" % (name, k)
+                        end = idxs[k - 1 + 1] if k - 1 + 1 < len(idxs) else len(blk)
+                        # the target of this binding and every use up to (and inside the value of) the next binding
+                        blk[i].targets[0].id = new
+                        for st in blk[i + 1:end]:
+                            for x in ast.walk(st):
+                                if isinstance(x, ast.Name) and x.id == name:
+                                    x.id = new
+                        if end < len(blk):
+                            for x in ast.walk(blk[end].value):
+                                if isinstance(x, ast.Name) and x.id == name:
+                                    x.id = new
+                        n += 1
+    return n
+
+
 def lower_getsetattr(tree):
     """`setattr(o, "name", v)` -> `o.name = v` (statement), `getattr(o, "name")` -> `o.name` for constant identifier names"""
     n = [0]
@@ -2159,15 +2220,23 @@ def propagate_selectors(tree):
                 blk = getattr(holder, fld, None)
                 if not (isinstance(blk, list) and blk and isinstance(blk[0], ast.stmt)):
                     continue
-                for i in range(len(blk) - 1):
-                    a, chain = blk[i], blk[i + 1]
-                    if not (isinstance(a, ast.Assign) and len(a.targets) == 1 and isinstance(a.targets[0], ast.Name)
-                            and isinstance(a.value, ast.Constant) and a.value.value is None and isinstance(chain, ast.If)):
+                for i in range(len(blk)):
+                    chain = blk[i]
+                    if not isinstance(chain, ast.If):
                         continue
-                    f = a.targets[0].id
+                    a = blk[i - 1] if i > 0 else None
+                    lead = (isinstance(a, ast.Assign) and len(a.targets) == 1 and isinstance(a.targets[0], ast.Name)
+                            and isinstance(a.value, ast.Constant) and a.value.value is None)
+                    first = chain.body[0] if len(chain.body) == 1 else None
+                    if not (isinstance(first, ast.Assign) and len(first.targets) == 1 and isinstance(first.targets[0], ast.Name)):
+                        continue
+                    f = first.targets[0].id
+                    if lead and a.targets[0].id != f:
+                        lead = False
                     arms = []
                     cur = chain
                     ok = True
+                    trailing_none = False
                     while True:
                         if not (len(cur.body) == 1 and isinstance(cur.body[0], ast.Assign) and len(cur.body[0].targets) == 1
                                 and isinstance(cur.body[0].targets[0], ast.Name) and cur.body[0].targets[0].id == f):
@@ -2185,13 +2254,17 @@ def propagate_selectors(tree):
                         if len(cur.orelse) == 1 and isinstance(cur.orelse[0], ast.If):
                             cur = cur.orelse[0]
                             continue
-                        if cur.orelse:
+                        if len(cur.orelse) == 1 and isinstance(cur.orelse[0], ast.Assign) and len(cur.orelse[0].targets) == 1 \
+                                and isinstance(cur.orelse[0].targets[0], ast.Name) and cur.orelse[0].targets[0].id == f \
+                                and isinstance(cur.orelse[0].value, ast.Constant) and cur.orelse[0].value.value is None:
+                            trailing_none = True      # `else: f = None` closes the chain instead of a leading `f = None`
+                        elif cur.orelse:
                             ok = False
                         break
-                    if not ok or not arms:
+                    if not ok or not arms or not (lead or trailing_none):
                         continue
                     stores = [x for x in ast.walk(fn) if isinstance(x, ast.Name) and x.id == f and isinstance(x.ctx, (ast.Store, ast.Del))]
-                    if len(stores) != 1 + len(arms):
+                    if len(stores) != len(arms) + (1 if lead else 0) + (1 if trailing_none else 0):
                         continue
                     pos = _positions(fn)
                     tnames = {x.id for t, _ in arms for x in ast.walk(t) if isinstance(x, ast.Name)} | {
@@ -2349,8 +2422,26 @@ def scalarize_local_dicts(tree):
 
 
 def lower_zip_count(tree):
-    """`for n, x in zip(itertools.count(S), X)` -> `for n, x in enumerate(X, S)`; `zip(X, itertools.count(S))` with targets swapped"""
+    """`for n, x in zip(itertools.count(S), X)` -> `for n, x in enumerate(X, S)`; `zip(X, itertools.count(S))` with targets swapped;
+    `c = itertools.count(S)` directly in front of the loop (c used nowhere else) counts as the call"""
     n = 0
+    for fn in [x for x in ast.walk(tree) if isinstance(x, (ast.FunctionDef, ast.AsyncFunctionDef))]:
+        for holder in ast.walk(fn):
+            for fld in ("body", "orelse", "finalbody"):
+                blk = getattr(holder, fld, None)
+                if not (isinstance(blk, list) and blk and isinstance(blk[0], ast.stmt)):
+                    continue
+                for i in range(len(blk) - 1):
+                    a, lp = blk[i], blk[i + 1]
+                    if isinstance(a, ast.Assign) and len(a.targets) == 1 and isinstance(a.targets[0], ast.Name) and isinstance(a.value, ast.Call) \
+                            and ast.unparse(a.value.func) in ("itertools.count", "count") and isinstance(lp, ast.For) \
+                            and isinstance(lp.iter, ast.Call) and isinstance(lp.iter.func, ast.Name) and lp.iter.func.id == "zip":
+                        c = a.targets[0].id
+                        uses = [x for x in ast.walk(fn) if isinstance(x, ast.Name) and x.id == c]
+                        args = [x for x in lp.iter.args if isinstance(x, ast.Name) and x.id == c]
+                        if len(uses) == 2 and len(args) == 1:
+                            lp.iter.args[lp.iter.args.index(args[0])] = a.value
+                            blk[i] = ast.copy_location(ast.Pass(), a)
     for lp in ast.walk(tree):
         if not (isinstance(lp, ast.For) and isinstance(lp.iter, ast.Call) and isinstance(lp.iter.func, ast.Name) and lp.iter.func.id == "zip"
                 and len(lp.iter.args) == 2 and not lp.iter.keywords and isinstance(lp.target, ast.Tuple) and len(lp.target.elts) == 2):
@@ -2401,6 +2492,40 @@ def lower_dict_dispatch(tree):
             out.append(st)
         return out
     _map_blocks(tree, fn)
+    if n[0]:
+        ast.fix_missing_locations(tree)
+    return n[0]
+
+
+def lower_builtin_idioms(tree):
+    """`vars(x)` -> `x.__dict__`; `map(f, S, itertools.repeat(c))` -> `(f(e, c) for e in S)`; `map(f, S)` -> `(f(e) for e in S)`;
+    `list(<generator expression>)` -> list comprehension"""
+    n = [0]
+
+    class T(ast.NodeTransformer):
+        def visit_Call(self, node):
+            self.generic_visit(node)
+            f = node.func
+            if isinstance(f, ast.Name) and f.id == "vars" and len(node.args) == 1 and not node.keywords:
+                n[0] += 1
+                return ast.copy_location(ast.Attribute(value=node.args[0], attr="__dict__", ctx=ast.Load()), node)
+            if isinstance(f, ast.Name) and f.id == "map" and len(node.args) >= 2 and not node.keywords \
+                    and isinstance(node.args[0], (ast.Name, ast.Attribute)):
+                seqs = node.args[1:]
+                reps = [a for a in seqs if isinstance(a, ast.Call) and ast.unparse(a.func) in ("itertools.repeat", "repeat") and len(a.args) == 1]
+                real = [a for a in seqs if a not in reps]
+                if len(real) == 1 and seqs[0] is real[0]:
+                    n[0] += 1
+                    ev = "__e%d" % n[0]
+                    call = ast.Call(func=node.args[0], args=[ast.Name(id=ev, ctx=ast.Load())] + [r.args[0] for r in reps], keywords=[])
+                    return ast.copy_location(ast.GeneratorExp(elt=call, generators=[ast.comprehension(
+                        target=ast.Name(id=ev, ctx=ast.Store()), iter=real[0], ifs=[], is_async=0)]), node)
+            if isinstance(f, ast.Name) and f.id == "list" and len(node.args) == 1 and not node.keywords and isinstance(node.args[0], ast.GeneratorExp):
+                n[0] += 1
+                g = node.args[0]
+                return ast.copy_location(ast.ListComp(elt=g.elt, generators=g.generators), node)
+            return node
+    T().visit(tree)
     if n[0]:
         ast.fix_missing_locations(tree)
     return n[0]
@@ -2728,7 +2853,8 @@ def normalize(tree, extern=None, modname=None):
     stats = {"match": desugar_match(tree), "suppress": lower_suppress(tree), "walrus": lower_walrus_if(tree) + lower_walrus_while(tree)}
     stats["kwargs_dicts"] = expand_kwargs_dicts(tree)
     stats["partials"] = expand_partials(tree)
-    stats.update({"constants": propagate_constants(tree), "inlined": 0, "resugared": resugar_loops(tree)})
+    stats.update({"constants": propagate_constants(tree, modname), "inlined": 0, "resugared": resugar_loops(tree)})
+    stats["builtin_idioms"] = lower_builtin_idioms(tree)
     stats["writerows"] = lower_writerows(tree)
     stats["zip_count"] = lower_zip_count(tree)
     stats["dict_dispatch"] = lower_dict_dispatch(tree)
@@ -2744,6 +2870,9 @@ def normalize(tree, extern=None, modname=None):
     stats["expr_inlined"] = inline_expression_helpers(tree, extern)
     stats["aliases"] = propagate_aliases(tree)
     stats["unrolled"] = unroll_constant_loops(tree)
+    if stats["unrolled"]:
+        stats["live_ranges"] = split_live_ranges(tree)
+        stats["aliases"] += propagate_aliases(tree)
     stats["local_dicts"] = scalarize_local_dicts(tree)
     stats["getsetattr"] = lower_getsetattr(tree)
     stats["ifexp"] = lower_ifexp(tree)
